@@ -197,10 +197,13 @@ def _fuzz_child(st, sub, seed, path):
             except BaseException:  # noqa: BLE001
                 dump(error=traceback.format_exc())
                 os._exit(0)
-            if execs[0] % 2000 == 0 or execs[0] >= sub.fuzz_runs:
+            out_of_time = execs[0] % 50 == 0 and time.time() - st.t0 > sub.time_budget_s
+            if execs[0] % 2000 == 0 or execs[0] >= sub.fuzz_runs or out_of_time:
                 st.classes["atheris-execs"] = execs[0]
+                if out_of_time:
+                    st.classes["atheris-campaign-ended-by-time-budget"] = 1     # inconclusive for the rest, not a failure
                 dump()
-                if execs[0] >= sub.fuzz_runs:
+                if execs[0] >= sub.fuzz_runs or out_of_time:
                     os._exit(0)
 
         dump()
